@@ -443,6 +443,7 @@ func (l *queue) trimHead() error {
 		}
 		verifhook.Fire("hh.trim", l.head.path)
 		l.head = l.segments[0]
+		l.tail = l.segments[len(l.segments)-1]
 	}
 	return nil
 }
